@@ -582,7 +582,7 @@ impl Engine for Text {
         match prop {
             "C08" => "cases = (layout, radix, string): grammar literals with 0..230 digits per part, literals around rounding ties (exact tie, prefixes, last digit +-1, tie+0..01, tie-1 then 9..9, random tails, beyond the fast-path digit budgets), representable values written out with tails, strings one edit away from a valid literal, fixed malformed strings, decimal digit groups solved to sit on a limb boundary of a multi-word accumulator (h*10^p = -+k*2^p mod 2^b). Oracle: tokeniser from the stated grammar, exact rational N/radix^k, RNE(value*2^f) in big integers, then the form rules (plain Err(overflow) iff rounded value out of range, saturating bound on the literal's side, wrapping/overflowing value mod 2^w + flag; malformed => Err in every form; no unwinding). Non-trivial: valid literal whose value is not on the layout's grid, or a malformed string.".into(),
             "C09" => "cases = (layout, value, trait in {Display, Debug, Binary, Octal, LowerHex, UpperHex}, precision none|0..=200, width none|0..=260, 72 fill/align/+/#/0 combinations); values from the operand classes plus near-short-decimal values round(d*2^f)+-2 and values whose shortest decimal form is a limb-boundary digit group. Oracle: with precision the exact string RNE at p digits; without precision a validity predicate (digits shown are the RNE at the number of digits shown, the string denotes exactly this value, exact in radix 2/8/16) and the library's own FromStr round trip; flags: metamorphic against the reference padding model (self-tested against std's integer formatting) applied to the no-flag output. Non-trivial: fraction non-zero and (default precision or precision below the digits needed).".into(),
-            "C10" => "cases = (layout, bit pattern, 0..20 input bytes); every pattern of the 8/16-bit layouts enumerated. Oracle: width/8 little-endian bytes of the raw value: encode == encode(bits) == to_le_bytes, encoded_size == max_encoded_len == width/8, decode(encode) identity, decoding generated bytes (value from the first width/8 bytes, exactly that many consumed, failure when fewer), le/be/ne round trips and mutual reversal, from_bits/to_bits and Wrapping round trips, serde_json form exactly {\"bits\":<integer>} for F and Wrapping<F> and back. Non-trivial: bytes not all equal.".into(),
+            "C10" => "cases = (layout, bit pattern, 0..20 input bytes); every pattern of the 8/16-bit layouts enumerated. Oracle: width/8 little-endian bytes of the raw value: encode == encode(bits) == to_le_bytes, encoded_size == max_encoded_len == width/8, decode(encode) identity, decoding generated bytes (value from the first width/8 bytes, exactly that many consumed, failure when fewer), le/be/ne round trips and mutual reversal, from_bits/to_bits and Wrapping round trips, serde_json form exactly {\"bits\":<integer>} for F and Wrapping<F> and back; the serde data model recorded by a serializer answering is_human_readable() true and false (one record, single field bits, the integer) and played back through a self-describing deserializer. Non-trivial: bytes not all equal.".into(),
             _ => String::new(),
         }
     }
@@ -779,6 +779,9 @@ impl Engine for Text {
                         "to_ne_bytes" => Exp::Is(Out::Y(ne.clone())),
                         "encoded_size" | "max_encoded_len" => Exp::Is(Out::V(n as u128)),
                         "decode(encode)" | "serde_back" | "serde_wrapping_back" | "serde_from_bits_json" | "decode_stream(encode)" | "decode_record" | "decode_vec" | "decode_all(encode)" => Exp::Is(Out::O(Some(a))),
+                        "serde_model_back(human)" | "serde_model_back(binary)" | "serde_model_wrapping_back(human)" | "serde_model_wrapping_back(binary)"
+                        | "serde_model_play(human)" | "serde_model_play(binary)" => Exp::Is(Out::O(Some(a))),
+                        "serde_model(human)" | "serde_model(binary)" | "serde_model_wrapping(human)" | "serde_model_wrapping(binary)" => Exp::Is(Out::S(format!("{}", l.val(a)))),
                         "decode_limits_like_integer" => Exp::Is(Out::V(0)),
                         "encode_record" => {
                             let mut v = vec![7u8];
